@@ -365,6 +365,34 @@ def r5(ctx, retsets):
         adv = tot is not None and ln[0] == "bin" and ln[1] == "sub" and ln[2] == ("arg", 2) and ln[3] == tot and ptr[1] == ("arg", 1)
         loops = [L for L in fn.loops().values() if c.block.id in L]
         ctx.check(adv and bool(loops), "C04.R5", "%s:advances" % loop, c.loc(), "%s(buf + done, len - done) inside the loop" % raw, key="C04.R5:%s:adv" % loop)
+    # the read-until-complete loop ends only on a negative result or when len bytes are in: the built-in transports must therefore
+    # never hand it a 0 ("no bytes, no error") - a closed connection is TR_CLOSED, an empty non-blocking read TR_WOULDBLOCK
+    TRV = pdb.enum("tr_rtvals")
+    for tname, prim, zero_ok in (("tr_tcp_recv", "recv", {TRV["TR_CLOSED"]}), ("tr_ssh_recv_async", "ssh_channel_read_nonblocking", {TRV["TR_CLOSED"], TRV["TR_WOULDBLOCK"]})):
+        if not pdb.has_fn(tname):
+            continue
+        tf = pdb.fn(tname)
+        ctx.touch(tf)
+        for res, name in ((0, "0 bytes"), (7, "7 bytes"), (-1, "failure")):
+            def cl_r(inst, E, st, res=res):
+                if inst.op == "call" and inst.callee == prim:
+                    return [(["read"], {inst.ref: flow.av_in(res)})]
+                if inst.op == "call" and inst.callee in ("setsockopt", "ssh_channel_is_eof"):
+                    return None
+                return None
+            outs_r, _f = es.count_effects(tf, pdb, cl_r, None)
+            rets = {flow.av_single(o["ret"]) for o in outs_r if o["counts"].get("read")}
+            if res == 0:
+                good = bool(rets) and rets <= zero_ok
+                exp = "one of %s" % sorted(zero_ok)
+            elif res > 0:
+                good = rets == {res}
+                exp = "the byte count"
+            else:
+                good = bool(rets) and all(r is not None and r < 0 for r in rets)
+                exp = "a negative transport code"
+            ctx.check(good, "C04.R5", "%s[%s returns %s]" % (tname, prim, name), "%s:%d" % (tf.relfile, tf.line),
+                      "returns %s (expected %s)" % (sorted(rets, key=str), exp), key="C04.R5:%s:%d" % (tname, res))
     users = {c.fn.name for cal in ("tr_recv", "tr_send") for c in pdb.callers(cal) if c.fn.unit.startswith("rtrlib/rtr")}
     ctx.check(not users, "C04.R5", "protocol-code-uses-_all-only", "rtrlib/rtr", "raw transport calls in protocol code: %s" % sorted(users), key="C04.R5:proto")
 
